@@ -194,6 +194,7 @@ def _arg_keys(f):
     for n in body_walk(f):
         if isinstance(n, ast.Dict) and any(isinstance(k, ast.Constant) and k.value == "trigger_type" for k in n.keys):
             keys |= {k.value for k in n.keys if isinstance(k, ast.Constant)}
+            updates += [norm(v) for k, v in zip(n.keys, n.values) if k is None]  # {**data, ...}: a merge like func_args.update(data)
             vals = {k.value: norm(v) for k, v in zip(n.keys, n.values) if isinstance(k, ast.Constant)}
         if isinstance(n, ast.Assign) and isinstance(n.targets[0], ast.Subscript) and norm(n.targets[0].value) == "func_args" and isinstance(n.targets[0].slice, ast.Constant):
             keys.add(n.targets[0].slice.value)
@@ -211,6 +212,11 @@ def run(ctx):
         ctx.check(kl == kn and ul == un and "trigger_type" in kl, "R08.1", new, f"{src}: same keys and payload merge in both subsystems",
                   msg=f"{src} trigger arguments differ between subsystems: legacy keys {sorted(kl)} + update({ul}), new keys {sorted(kn)} + update({un})", key=f"{src} argument keys",
                   node=program.func(new), rel=new.split("::")[0], sample={"keys": sorted(kl)})
+
+    ctx.rule("R08.12", "an event's data cannot pose as the trigger's own arguments: trigger_type is 'event', event_type the event's type and context the event's context whatever "
+             "keys the payload carries (a `context` key in the data would cut the context chain of everything the run does; a forged trigger_type/trigger_time misleads the guards); "
+             "all other data keys are delivered", floor=2)
+    own_arguments_rule(ctx, program, "R08.12")
 
     ctx.rule("R08.2", "every fan-out gives each subscriber a fresh copy of the argument dictionary", floor=4)
     fanout_copy_rule(ctx, program, "R08.2")
@@ -436,3 +442,36 @@ def listener_table(ctx, program, rid):
             ctx.check(n > 0 and bad is None, rid, uid, f"{cls}.notify_{op}: {label}",
                       msg=f"{cls}.notify_{op}({typ!r}, {q}) on subscriber table {before}: {bad or 'no exit'} - a listener that outlives its last subscriber (or a missing one) "
                       f"makes every later occurrence start zero or several runs per trigger", key=f"{cls} {op} {label}", node=fn, rel=rel)
+
+
+def own_arguments_rule(ctx, program, rid):
+    legacy, new = SOURCES["event"] if "event" in SOURCES else next(v for k, v in SOURCES.items() if "event" in k.lower())
+    ev_ctx = ObjV("event_context", "Context")
+    data = DictV([(Const("n"), Const(1)), (Const("trigger_type"), Const("time")), (Const("event_type"), Const("other")), (Const("context"), Const("kitchen")),
+                  (Const("trigger_time"), Const("forged"))])
+    for uid in (legacy, new):
+        seen = []
+
+        def capture(i, n, a, k, c, o):
+            d = next((x for x in a if isinstance(x, DictV)), None)
+            seen.append(d)
+            return [(c, d if n == "DispatchData" else NONE)]
+
+        pol = FlowPolicy(program, may_raise_all=False, cancel=False,
+                         summaries={"cls.update": capture, "DispatchData": capture, "self.dispatch": lambda i, n, a, k, c, o: [(c, NONE)], "self.has_expression": lambda i, n, a, k, c, o: [(c, Const(False))]})
+        f = program.func(uid)
+        args = {("cls" if f.args.args[0].arg == "cls" else "self"): (ClassV("Event") if f.args.args[0].arg == "cls" else ObjV("self", "EventTriggerDecorator")), "event": ObjV("event", "Event")}
+        out = run_flow(program, uid, pol, args=args, heap={"event.event_type": Const("ev"), "event.context": ev_ctx, "event.data": data})
+        ex = exits(out)
+        bad = None
+        if not ex or any(k != "return" for k, c, d in ex) or not seen or not all(isinstance(d, DictV) for d in seen):
+            bad = f"exits {[d for k, c, d in ex]}, arguments {seen!r}"
+        else:
+            got = dict(seen[-1].items)
+            want = {Const("trigger_type"): Const("event"), Const("event_type"): Const("ev"), Const("context"): ev_ctx, Const("n"): Const(1), Const("trigger_time"): Const("forged")}
+            if got != want:
+                bad = "the function is called with " + ", ".join(f"{k.v}={got.get(k)!r}" for k in want if got.get(k) != want[k]) + " (specified: " + \
+                      ", ".join(f"{k.v}={want[k]!r}" for k in want if got.get(k) != want[k]) + ")"
+        ctx.check(bad is None, rid, uid, "payload keys do not replace trigger_type / event_type / context",
+                  msg=f"{uid} for an event 'ev' whose data is {{n: 1, trigger_type: 'time', event_type: 'other', context: 'kitchen', trigger_time: ...}}: {bad}",
+                  key="event own arguments", node=f, rel=uid.split("::")[0])
